@@ -44,6 +44,38 @@ _canon_files = _canon_forms
 _canon_post = _canon_forms
 
 
+def _canon_files_round_robin(req, k):
+    """Like _canon_files, but the uploads are read k bytes at a time in round-robin order,
+    with a read of request.body in between and no explicit seek: each upload is its own
+    file-like with its own position, although all of them are windows onto one body."""
+    d = req.files
+    ups = []
+    for key, v in d.items():
+        for u in (v if isinstance(v, list) else [v]):
+            if hasattr(u, 'raw_filename'):
+                u.file.seek(0)
+                ups.append([u, bytearray(), False])
+    turn = 0
+    while any(not done for _, _, done in ups):
+        for ent in ups:
+            if ent[2]:
+                continue
+            piece = ent[0].file.read(k)
+            if not piece:
+                ent[2] = True
+            ent[1] += piece
+        turn += 1
+        if turn % 3 == 1:
+            req.body.read(5)
+    data = {id(u): bytes(buf) for u, buf, _ in ups}
+
+    def canon(x):
+        if hasattr(x, 'raw_filename'):
+            return {'name': x.name, 'filename': x.raw_filename, 'ctype': _ctype_of(x), 'data': data[id(x)]}
+        return _canon_value(x)
+    return [[key, canon(v) if not isinstance(v, list) else [canon(x) for x in v]] for key, v in d.items()]
+
+
 def body_request(wire, sched, *, B, M=None, cl=None, chunked=False, ctype=None, tempmode='real',
                  touch=('body',), endless=None, max_calls=None, propagate=True, method='POST'):
     """Serve one request whose body stream is SimStream(wire, sched)."""
@@ -80,6 +112,8 @@ def body_request(wire, sched, *, B, M=None, cl=None, chunked=False, ctype=None, 
                         seen['forms'] = _canon_forms(req.forms)
                     elif t == 'files':
                         seen['files'] = _canon_files(req.files)
+                    elif t.startswith('files_rr:'):
+                        seen['files'] = _canon_files_round_robin(req, int(t.split(':')[1]))
                     elif t == 'POST':
                         seen['POST'] = _canon_post(req.POST)
                     elif t == 'json':
